@@ -223,6 +223,50 @@ def replayCache (j : Json) : Except String Json := do
   let out := runEvents (κ := Key) (V := Nat) cap (fun _ r => r.2) (fun _ r => r.1) none parsed
   pure (toJson out)
 
+/-- replay of a history on SEVERAL objects (`procRun`, Model/Cache.lean section viii).
+{"cap": n|null, "slot": bool (optional: `PDE._cache`, one slot per method = backend name), "ignore": {...},
+ "events": [{"ev": "call", "obj": o, "name": s, ("cls": k | "args": .., "kwargs": .., "extra": ..)} |
+            {"ev": "drop", "obj": o} | {"ev": "nop"}]}
+`cls` = the key is the given class index (equivalence class of the validated attributes, decided by the real
+`==`); otherwise the key is `cacheKey` of the serialised arguments.  Answer as in `c04.replay_cache`: for every
+call the index of the event whose compute it returns. -/
+def replayProc (j : Json) : Except String Json := do
+  let cap : Option Nat ← (match fldOpt j "cap" with
+    | some .null | none => pure none
+    | some v => do pure (some (← getN v)))
+  let slot := optB j "slot"
+  let evs ← (← fld j "events").getArr?
+  let ign := fldOpt j "ignore"
+  let mut parsed : List (Nat × Ev (Nat × Key)) := []
+  let mut idx := 0
+  for e in evs.toList do
+    let kind ← fldS e "ev"
+    if kind == "drop" then
+      parsed := parsed ++ [(← fldN e "obj", Ev.drop)]
+    else if kind == "nop" then
+      pure ()
+    else
+      let o ← fldN e "obj"
+      let name ← fldS e "name"
+      match fldOpt e "cls" with
+      | some c =>
+        let k ← getN c
+        parsed := parsed ++ [(o, Ev.call name (idx, Key.leaf (.int (k : Int))))]
+      | none =>
+        let args ← getL parsePy (← fld e "args")
+        let kwargs ← parseKw (← fld e "kwargs")
+        let extra ← getL parsePy (← fld e "extra")
+        let ignore : List String := match ign with
+          | some o => match o.getObjVal? name with
+            | .ok a => match getL getS a with | .ok l => l | .error _ => []
+            | .error _ => []
+          | none => []
+        parsed := parsed ++ [(o, Ev.call name (idx, cacheKey ignore extra args kwargs))]
+    idx := idx + 1
+  let capf : Nat → String → Option Nat := if slot then pdeCap else fun _ _ => cap
+  let out := procRun (κ := Key) (V := Nat) capf (fun _ _ r => r.2) (fun _ _ r => r.1) [] parsed
+  pure (toJson out)
+
 /-- replay of a heap history of one field.
 {"inval": bool, "check": bool, "content": bool (optional, default false), "init": q, "events": [["write", q] |
  ["relink"] | ["assign_new", q] | ["assign_same"] | ["interp", kwargs] | ["rate"] | ["rate_jit"]]}
@@ -293,6 +337,6 @@ def pdeTable (j : Json) : Except String Json := do
 
 def handlers : List (String × Handler) :=
   [("c04.keyeq", keyEq), ("c04.speceq", specEq), ("c04.numhash", numHash),
-   ("c04.leafhash", leafHash), ("c04.replay_cache", replayCache), ("c04.replay_heap", replayHeap),
+   ("c04.leafhash", leafHash), ("c04.replay_cache", replayCache), ("c04.replay_proc", replayProc), ("c04.replay_heap", replayHeap),
    ("c04.replay_registry", replayRegistry), ("c04.pde_table", pdeTable)]
 end PdeVerif.Drv.C04
